@@ -79,7 +79,16 @@ pub struct Outcome {
     pub digest: u64,
 }
 
-pub fn run_history<W: WorldOps>(seed: u64, stream: u64, nops: usize, prof: Profile, scale_small: bool) -> Outcome {
+pub fn run_history<W: WorldOps>(seed: u64, stream: u64, nops: usize, mut prof: Profile, scale_small: bool) -> Outcome {
+    if scale_small {
+        // interpreter scale (Miri): same generators, fewer probes per step
+        prof.max_pop = prof.max_pop.min(8);
+        prof.sample = 0;
+        prof.api_subset = 2;
+        prof.inv_all = false;
+        prof.full_every = usize::MAX;
+        prof.iter_every *= 6;
+    }
     let mut e: Engine<W> = Engine::new(seed, stream, prof);
     let mut pc = ProbeCounts::default();
     e.new_world();
@@ -296,8 +305,9 @@ pub fn step_once<W: WorldOps>(e: &mut Engine<W>, pc: &mut ProbeCounts, small: bo
             for ai in 0..e.archs.len() {
                 e.check_invariants(w2, ai);
             }
-            e.probe(w2, true, &[], pc);
-            e.probe(wi, true, &[], pc);
+            let full = e.prof.full_every != usize::MAX;
+            e.probe(w2, full, &[], pc);
+            e.probe(wi, full, &[], pc);
             e.check_iteration(w2, pc);
             e.check_events(w2);
         }
@@ -309,14 +319,17 @@ pub fn post_step<W: WorldOps>(e: &mut Engine<W>, wi: usize, touched: &[usize], p
     if e.rep.failed() {
         return;
     }
+    let touched_archs: Vec<usize> = touched.iter().map(|u| e.sl(wi).m.ents[*u].arch).collect();
     for ai in 0..e.archs.len() {
-        e.check_invariants(wi, ai);
+        if e.prof.inv_all || touched_archs.contains(&ai) || e.rng.chance(1, 4) {
+            e.check_invariants(wi, ai);
+        }
         if e.rep.failed() {
             return;
         }
     }
     let step = e.rep.step;
-    let full = step % e.prof.full_every == 0;
+    let full = e.prof.full_every != usize::MAX && step % e.prof.full_every == 0;
     e.probe(wi, full, touched, pc);
     if step % e.prof.iter_every == 0 {
         e.check_iteration(wi, pc);
@@ -350,7 +363,8 @@ pub fn finish<W: WorldOps>(e: &mut Engine<W>, pc: &mut ProbeCounts) {
         for ai in 0..e.archs.len() {
             e.check_invariants(wi, ai);
         }
-        e.probe(wi, true, &[], pc);
+        let full = e.prof.full_every != usize::MAX;
+        e.probe(wi, full, &[], pc);
         e.check_iteration(wi, pc);
         e.check_events(wi);
     }
@@ -381,7 +395,7 @@ pub fn flush_counts<W: WorldOps>(e: &mut Engine<W>, pc: &ProbeCounts) {
             }
         }
     }
-    e.rep.add("lookup_matrix_cells_observed", cells);
+    e.rep.add("max_lookup_matrix_cells", cells);
     for (i, a) in ["no-removal", "removal-since"].iter().enumerate() {
         for (j, b) in ["no-creation", "creation-since"].iter().enumerate() {
             for (k, c) in ["rejected", "accepted"].iter().enumerate() {
